@@ -80,8 +80,8 @@ func TestVerifEpochOps(t *testing.T) {
 						ep := &Epoch{epoch: *cfg.Epoch, config: cfg}
 						ep.onClose = append(ep.onClose, func() error {
 							closed[id] = true
-							if id%3 == 0 {
-								// every third object reports an error from its close hook (an I/O error on close, a double close):
+							if (id+ci)%2 == 0 {
+								// every second object reports an error from its close hook (an I/O error on close, a double close):
 								// the epoch set has to end up in the same state
 								return fmt.Errorf("close of epoch object %d: input/output error", id)
 							}
